@@ -29,7 +29,7 @@ def simrun_designs(invariants, properties=(), quick=True):
     out = []
     if quick:
         out.append({"module": "MC_SimRun", "constants": {"MaxUpdates": "3", "MaxReqs": "2", "TwoStrats": "FALSE", "Iso": "TRUE", "WithClose": "TRUE"}, "view": "View", "invariants": inv, "properties": prp,
-                    "must_reach": ["Reach_Replacement", "Reach_ClosedWithFill", "Reach_FilledOnClosingUpdate"], "timeout": 900})
+                    "must_reach": ["Reach_Replacement", "Reach_ClosedWithFill", "Reach_FilledOnClosingUpdate", "Reach_RemovedAtCloseWithFill"], "timeout": 900})
     out.append({"module": "MC_SimRun", "constants": {"MaxUpdates": "4", "MaxReqs": "3", "TwoStrats": "FALSE", "Iso": "TRUE", "WithClose": "TRUE"}, "view": "View", "invariants": inv, "properties": prp,
                 "must_reach": ["Reach_Replacement", "Reach_QueueHonoured", "Reach_ClosedWithFill"], "tier": "thorough", "timeout": 2400})
     return out
